@@ -1445,12 +1445,30 @@ class ModuleScope(VhdlScope):
         "default",
     }
 
+    # predefined identifiers the emitted text relies on: a declared
+    # object with one of these names would hide it
     _additional_reserved = {
         "std_logic",
         "std_logic_vector",
         "signed",
         "unsigned",
         "resize",
+        "boolean",
+        "integer",
+        "natural",
+        "string",
+        "true",
+        "false",
+        "to_integer",
+        "to_unsigned",
+        "to_signed",
+        "shift_left",
+        "shift_right",
+        "rising_edge",
+        "falling_edge",
+        "cohdl_bool_to_std_logic",
+        "work",
+        "ieee",
     }
 
     def __init__(self, *, additional_reserved_names: set[str] = None):
